@@ -540,10 +540,60 @@ def is_follow_flag(run, body, cond):
     return ok and n >= 2
 
 
+def flag_implications(run, body, cond, depth=0):
+    """Facts that hold whenever the bool `cond` (in `body`) is true: subset of {"follow", "nolimit"}.  Covers the follow flag itself,
+    `limit.is_none()`, and a bool computed up front (`let send_threshold = should_follow && options.limit.is_none();`, possibly
+    captured by a task closure): each definition that is not the constant `false` lies behind - or is itself - such a test."""
+    c = strip(cond)
+    out = set()
+    if is_follow_flag(run, body, cond):
+        out.add("follow")
+    if c[0] == "call" and c[1].fn == "core::option::Option::<T>::is_none" and denotes_field(run, body, c, "limit"):
+        out.add("nolimit")
+    if out or depth > 2:
+        return out
+    src = None
+    if c[0] == "field" and c[1][0] == "env":
+        src = capture_origin(run, body, str(c[2]))
+    elif c[0] == "phi":
+        src = (body, c)
+    if src is None:
+        return out
+    pb, e = src
+    e = strip(e)
+    if e[0] != "phi":
+        return flag_implications(run, pb, e, depth + 1) if pb is not body or e != c else out
+    local = e[1]
+    common = None
+    n_true = 0
+    for d in pb.defs().get(local, []):
+        if d[0] == "yield":
+            return set()
+        if d[0] == "assign":
+            rv = d[3]
+            if "use" in rv and "const" in rv["use"] and rv["use"]["const"].get("bool") is False:
+                continue
+        n_true += 1
+        here = set()
+        try:
+            val = pb.rvalue_expr(d[3]) if d[0] == "assign" else ("call", d[2], d[2].arg_exprs())
+            here |= flag_implications(run, pb, val, depth + 1)
+        except FactError:
+            pass
+        for sb, ss in pb.switches():
+            if ss["kind"] != "bool":
+                continue
+            te = q.edge_triples(pb, sb, lambda m: m is True)
+            if te and q.dominated(pb, d[1], via_edges=te):
+                here |= flag_implications(run, pb, ss["cond"], depth + 1)
+        common = here if common is None else (common & here)
+    return common if (common and n_true) else set()
+
+
 def follow_flag_edges(run, body, value=True):
     """Edges (true ones by default) of the switches on the follow flag (see is_follow_flag)."""
     out = []
     for bb, si in body.switches():
-        if si["kind"] == "bool" and is_follow_flag(run, body, si["cond"]):
+        if si["kind"] == "bool" and (is_follow_flag(run, body, si["cond"]) or (value is True and "follow" in flag_implications(run, body, si["cond"]))):
             out += q.edge_triples(body, bb, lambda m: m is value)
     return out
